@@ -36,7 +36,7 @@ ASSUMPTIONS = ["gc object increments are reproducible to within a few objects pe
 REQUIRED_PROBES = ["mode.reuse", "mode.fresh", "mode.launch", "mode.queue", "pipeline_with_sweep", "pipeline_with_shorthand",
                    "failing_configuration_repeated", "traced_repeats"]
 CONFIG = {
-    "quick": {"runs": 64, "budget_s": 200, "timeout_s": 400},
+    "quick": {"runs": 64, "budget_s": 240, "timeout_s": 400},
     "thorough": {"runs": 1600, "budget_s": 1700, "timeout_s": 600},
     "shrink_s": 90.0,
 }
